@@ -787,6 +787,37 @@ func fieldStores(fn *ssa.Function, owner, field string) []*ssa.Store {
 	return out
 }
 
+// fieldAddrEscapes returns the uses of &x.<field> (x of type owner) other than a direct load or a direct store to it:
+// through such a use the field can be written without a fieldStores-visible store.
+func fieldAddrEscapes(fn *ssa.Function, owner, field string) []ssa.Instruction {
+	var out []ssa.Instruction
+	eachInstr(fn, func(in ssa.Instruction) {
+		fa, ok := in.(*ssa.FieldAddr)
+		if !ok {
+			return
+		}
+		if o, f, ok := fieldOwner(fa); !ok || o != owner || f != field {
+			return
+		}
+		for _, ref := range *fa.Referrers() {
+			switch x := ref.(type) {
+			case *ssa.UnOp:
+				if x.Op == token.MUL {
+					continue
+				}
+			case *ssa.Store:
+				if x.Addr == fa && x.Val != fa {
+					continue
+				}
+			case *ssa.DebugRef:
+				continue
+			}
+			out = append(out, ref)
+		}
+	})
+	return out
+}
+
 // constOf returns the constant value of v if it is an *ssa.Const (through conversions).
 func constOf(v ssa.Value) (constant.Value, bool) {
 	for {
